@@ -108,7 +108,8 @@ func ValidateFlattenField(field *protogen.Field, messageName string) error {
 		)
 	}
 
-	if field.Oneof != nil {
+	// proto3 `optional` fields belong to a synthetic oneof; they are not oneof variants.
+	if field.Oneof != nil && !field.Oneof.Desc.IsSynthetic() {
 		return fmt.Errorf(
 			"field %s.%s: flatten is not valid on oneof variant fields (use oneof_config.flatten instead)",
 			messageName, field.Desc.Name(),
